@@ -116,7 +116,7 @@ Proof.
       destruct sub as [t|].
       * apply w_fmt_inv in He as [He ->].
         assert (Hr4 : is_readable 4 e = true) by (unfold is_readable; len_lia).
-        unfold r_opt. rewrite Hr4. rewrite <- (app_nil_r e). rewrite (read_u_pack _ _ _ _ He). reflexivity.
+        unfold r_opt. rewrite Hr4. cbn [is_some andb]. rewrite <- (app_nil_r e). rewrite (read_u_pack _ _ _ _ He). reflexivity.
       * inversion He; subst. reflexivity.
     + inversion Hc; subst. destruct sub; [discriminate|]. reflexivity.
   - apply w_fmt_inv in H as [H ->]. open_pk H. inv_ok. rewrite <- ?app_assoc. steps.
